@@ -209,6 +209,77 @@ def check_tape(spec):
     return ok(outcome=[sorted(ref["counts"].items()), ref["num_wires"], ref["depth"]], nontrivial=ref["n_ops"] >= 2)
 
 
+
+# --------------------------------------------------------------------------------------------- derived-tape histories
+DERIVE = ["copy", "pycopy", "copyops", "shots7", "tp0", "meas:Z0", "meas:probs_all", "meas:probs0123", "meas:sumZX", "meas:XZ",
+          "ops:H0", "ops:CX01,RX2", "ops:", "snc0", "snc1", "stdw"]
+
+
+def derive(qp, tape, ev):
+    import copy as _copy
+
+    if ev == "copy":
+        return tape.copy()
+    if ev == "pycopy":
+        return _copy.copy(tape)
+    if ev == "copyops":
+        return tape.copy(copy_operations=True)
+    if ev == "shots7":
+        return tape.copy(shots=7)
+    if ev == "tp0":
+        return tape.copy(trainable_params=[])
+    if ev.startswith("meas:"):
+        name = ev[5:]
+        ms = [qp.probs(wires=[0, 1, 2, 3])] if name == "probs0123" else build_meas(qp, name)
+        return tape.copy(measurements=ms)
+    if ev.startswith("ops:"):
+        with qp.queuing.AnnotatedQueue() as q:
+            build_ops(qp, [l for l in ev[4:].split(",") if l])
+        return tape.copy(operations=list(q.queue))
+    if ev.startswith("snc"):
+        batch, _ = qp.transforms.split_non_commuting(tape)
+        i = int(ev[3:])
+        return batch[i] if i < len(batch) else None
+    if ev == "stdw":
+        return tape.map_to_standard_wires()
+    raise AssertionError(ev)
+
+
+def check_derived(spec):
+    """History: build a tape, (optionally) read its .specs, derive new tapes by copy/update/transform events, reading .specs of the
+    objects named in `read` on the way; the specs of EVERY object of the history must describe that object (no stale summary)."""
+    import pennylane as qp
+
+    tape = make_tape(qp, spec["ops"], spec["meas"], spec.get("shots"))
+    objs = [tape]
+    if 0 in spec["read"]:
+        tape.specs  # pylint: disable=pointless-statement
+    for k, ev in enumerate(spec["events"], start=1):
+        try:
+            nxt = derive(qp, objs[-1], ev)
+        except (ValueError, qp.exceptions.QuantumFunctionError) as e:
+            return skip(f"derive-rejected:{ev}:{type(e).__name__}")
+        if nxt is None:
+            return skip("no-such-batch-entry")
+        objs.append(nxt)
+        if k in spec["read"]:
+            nxt.specs  # pylint: disable=pointless-statement
+    for k, t in enumerate(objs):
+        ref = ref_summary(t)
+        s = t.specs
+        if s["shots"] != t.shots:
+            return bad(f"derived:shots:after-{'+'.join(e.split(':')[0] for e in spec['events'][:k]) or 'root'}", repr(s["shots"]), repr(t.shots))
+        v = compare_resources(s["resources"], ref, "derived", None)
+        if v:
+            v["sig"] = v["sig"] + ":after-" + ("+".join(e.split(":")[0] for e in spec["events"][:k]) or "root")
+            v["o"] = "bad:" + v["sig"]
+            return v
+        fresh = qp.tape.QuantumScript(list(t.operations), list(t.measurements), shots=t.shots)
+        if fresh.specs["resources"] != s["resources"]:
+            return bad(f"derived:differs-from-fresh-tape:after-{'+'.join(e.split(':')[0] for e in spec['events'][:k]) or 'root'}",
+                       repr(s["resources"]), repr(fresh.specs["resources"]))
+    return ok(outcome=[spec["events"], sorted(spec["read"])], nontrivial=len(spec["read"]) > 0)
+
 # --------------------------------------------------------------------------------------------- qnode family
 def enc_level(l):
     if l is None:
@@ -587,6 +658,8 @@ def check(spec):
         return check_tape(spec)
     if k == "qnode":
         return check_qnode(spec)
+    if k == "derived":
+        return check_derived(spec)
     return check_arith(spec)
 
 
@@ -599,6 +672,16 @@ def run(ctx):
     tape_specs = [{"kind": "tape", "ops": w, "meas": m} for w in words(GATES, nt) for m in MEAS]
     tape_specs += [{"kind": "tape", "ops": w, "meas": "Z0", "shots": 10} for w in words(GATES, 1)]
     ctx.enumerate(tape_specs, axis="tape", chunk=100)
+    # ---- derived-tape histories: every event sequence of length <=2 x every subset of objects whose specs are read on the way
+    dspecs = []
+    starts = [(["H0", "CX01"], "XZ"), (["RX2", "AdjS1", "CX01"], "sumZX")] if q else [(["H0", "CX01"], "XZ"), (["RX2", "AdjS1", "CX01"], "sumZX"), (["MCM0c2", "GP"], "probs01"), (["BEL12"], "Z0")]
+    for ops_, meas_ in starts:
+        for n in (1, 2):
+            for evs in itertools.product(DERIVE, repeat=n):
+                for rmask in range(2 ** (n + 1)):
+                    read = [k for k in range(n + 1) if rmask >> k & 1]
+                    dspecs.append({"kind": "derived", "ops": ops_, "meas": meas_, "events": list(evs), "read": read})
+    ctx.enumerate(dspecs, axis="derived", chunk=200)
     # ---- qnode family
     nc, npipe = (3, 2) if q else (4, 2)
     qs = []
